@@ -6,6 +6,7 @@ import (
 	"encoding/json"
 	"fmt"
 	"reflect"
+	"regexp"
 	"strings"
 	"testing"
 	"time"
@@ -149,7 +150,9 @@ func capParens(s string) string {
 
 func genArbitrary(t *rapid.T) Case {
 	c := Case{Kind: "arbitrary"}
-	switch rapid.IntRange(0, 3).Draw(t, "akind") {
+	switch rapid.IntRange(0, 4).Draw(t, "akind") {
+	case 4:
+		return genInvalid(t)
 	case 3:
 		// raw bytes, not necessarily UTF-8, mostly very short
 		n := rapid.SampledFrom([]int{1, 1, 1, 2, 3, 6}).Draw(t, "nbytes")
@@ -190,6 +193,79 @@ func genArbitrary(t *rapid.T) Case {
 	}
 	c.Sig = capParens(c.Sig)
 	return c
+}
+
+var (
+	reLastName  = regexp.MustCompile(`,[A-Za-z][0-9A-Za-z_]*>`)
+	reSimpleMap = regexp.MustCompile(`\{([a-zA-Z])([a-zA-Z])\}`)
+	reSimpleLst = regexp.MustCompile(`\[([a-zA-Z])\]`)
+	reStructNam = regexp.MustCompile(`\)<[A-Za-z][0-9A-Za-z_]*`)
+)
+
+// genInvalid builds a string which is outside the grammar by construction:
+// a valid signature with one structural rule broken (a struct with one field
+// name too many or too few, a map of one or three types, a list of none or two,
+// a bracket missing, two types side by side, a struct without a name, a field
+// name starting with a digit). Such input is rejected with an error.
+func genInvalid(t *rapid.T) Case {
+	o := typeOpts()
+	o.Template = false
+	o.Depth = 3
+	s := gen.DrawType(t, o).Sig()
+	if rapid.Bool().Draw(t, "wrapped") {
+		// every rule has something to break in here
+		s = "(" + s + "{sI}[d])<Wrap,a,b,c>"
+	}
+	class := rapid.SampledFrom([]string{"names-1", "names+1", "map-1", "map+1", "list+1", "list-0", "unbalanced", "two-types", "no-struct-name", "digit-field"}).Draw(t, "invalid")
+	first := func(re *regexp.Regexp, repl string) bool {
+		loc := re.FindStringSubmatchIndex(s)
+		if loc == nil {
+			return false
+		}
+		s = s[:loc[0]] + string(re.ExpandString(nil, repl, s, loc)) + s[loc[1]:]
+		return true
+	}
+	ok := false
+	switch class {
+	case "names-1":
+		ok = first(reLastName, ">")
+	case "names+1":
+		if i := strings.Index(s, ">"); i >= 0 {
+			s, ok = s[:i]+",extra"+s[i:], true
+		}
+	case "map-1":
+		ok = first(reSimpleMap, "{$1}")
+	case "map+1":
+		ok = first(reSimpleMap, "{$1${2}i}")
+	case "list+1":
+		ok = first(reSimpleLst, "[${1}i]")
+	case "list-0":
+		ok = first(reSimpleLst, "[]")
+	case "unbalanced":
+		if i := strings.IndexAny(s, "[](){}"); i >= 0 {
+			k := rapid.IntRange(0, strings.Count(s, "[")+strings.Count(s, "]")+strings.Count(s, "(")+strings.Count(s, ")")+strings.Count(s, "{")+strings.Count(s, "}")-1).Draw(t, "which")
+			for j, r := range s {
+				if strings.ContainsRune("[](){}", r) {
+					if k == 0 {
+						s, ok = s[:j]+s[j+1:], true
+						break
+					}
+					k--
+				}
+			}
+		}
+	case "no-struct-name":
+		ok = first(reStructNam, ")<")
+	case "digit-field":
+		ok = first(reLastName, ",1x>")
+	}
+	if !ok {
+		class = "two-types"
+	}
+	if class == "two-types" {
+		s += "i"
+	}
+	return Case{Kind: "arbitrary", Sig: s, Edit: "invalid:" + class}
 }
 
 func parse(s string) (ty signature.Type, err error, panicked interface{}) {
@@ -388,6 +464,9 @@ func checkArbitrary(c Case) error {
 	}
 	if ty == nil {
 		return vt.Violationf("C09:nil-type", "Parse(%q) returned neither a type nor an error", c.Sig)
+	}
+	if strings.HasPrefix(c.Edit, "invalid:") && refErr != nil {
+		return vt.Violationf("C09:invalid-accepted:"+strings.TrimPrefix(c.Edit, "invalid:"), "Parse(%q) accepted an input which breaks a rule of the grammar (%s) and printed it as %q; the reference parser says: %v", c.Sig, c.Edit, ty.Signature(), refErr)
 	}
 	printed := ty.Signature()
 	ty2, err2, p2 := parse(printed)
